@@ -147,6 +147,26 @@ func svcSummary(cfg *gen.Cfg) []string {
 }
 
 func judgeIdentity(prop string, e *Entry, p *Plan, out *RunOut) *Violation {
+	cancelled := map[int]bool{}
+	for _, r := range out.Results {
+		if r.Op.Kind == "Cancel" {
+			cancelled[r.Op.Ctx%p.NCtx] = true
+			continue
+		}
+		switch r.Op.Kind {
+		case "GetCtx", "TaggedCtx", "GetterCtx", "MustGetterCtx":
+			if cancelled[r.Op.Ctx%p.NCtx] {
+				if r.Err == "" && r.Panic == "" {
+					return mkViolation(prop, "operation-on-cancelled-context-succeeded:"+r.Op.Kind, fmt.Sprintf("%s succeeded although its context had been cancelled", r.Op), e, p, out)
+				}
+				if r.Events > 0 {
+					return mkViolation(prop, "construction-under-cancelled-context:"+r.Op.Kind, fmt.Sprintf("%s ran %d user callbacks although its context had been cancelled", r.Op, r.Events), e, p, out)
+				}
+				r.Err, r.Panic = "", "" // the expected outcome: not an unexpected error below
+				r.Val = nil
+			}
+		}
+	}
 	for _, r := range out.Results {
 		if r.Panic != "" {
 			return mkViolation(prop, "operation-panicked:"+r.Op.Kind, fmt.Sprintf("%s panicked: %s", r.Op, r.Panic), e, p, out)
